@@ -148,21 +148,31 @@ def upsertAdd (rows : List AddrRow) (a : Addr) (t : Ticker) (v : Int) : List Add
   | none => rows ++ [{ addr := a, bals := setB [] t v }]
 
 /-- `Pegnet.AddToBalance(tx, adr, ticker, value)`; `value` is a Go uint64. -/
-def addBal (P : Params) (a : Addr) (t : Ticker) (v : Nat) : LM Unit := fun db =>
-  if !validTicker P t then .fail (.sqlError "no column named invalid token type_balance") db
-  else if v > maxInt64 then .fail (.sqlError "uint64 values with high bit set are not supported") db
-  else .ok () { db with addrs := upsertAdd db.addrs a t v }
+abbrev addBal (P : Params) (a : Addr) (t : Ticker) (v : Nat) : LM Unit :=
+  M.guarded
+    (fun _ => if !validTicker P t then some (.sqlError "no column named invalid token type_balance")
+              else if v > maxInt64 then some (.sqlError "uint64 values with high bit set are not supported")
+              else none)
+    (fun db => { db with addrs := upsertAdd db.addrs a t v })
+
+/-- the `UPDATE … SET x = x - ?` of `SubFromBalance` (after its balance check) -/
+abbrev debit (a : Addr) (t : Ticker) (v : Nat) : LM Unit :=
+  M.guarded
+    (fun _ => if v > maxInt64 then some (.sqlError "uint64 values with high bit set are not supported") else none)
+    (fun db => { db with addrs := updRow db.addrs a t (· - v) })
 
 /-- `Pegnet.SubFromBalance`.  Result `false` = `txErr` (insufficient balance), nothing written. -/
-def subBal (P : Params) (a : Addr) (t : Ticker) (v : Nat) : LM Bool := fun db =>
+def subBal (P : Params) (a : Addr) (t : Ticker) (v : Nat) : LM Bool := do
   if v = 0 then
-    match addBal P a t 0 db with
-    | .ok _ db' => .ok true db'
-    | .fail e db' => .fail e db'
-  else if !validTicker P t then .fail (.sqlError "invalid token type") db
-  else if db.bal a t < (v : Int) then .ok false db
-  else if v > maxInt64 then .fail (.sqlError "uint64 values with high bit set are not supported") db
-  else .ok true { db with addrs := updRow db.addrs a t (· - v) }
+    addBal P a t 0
+    pure true
+  else if !validTicker P t then M.throw (.sqlError "invalid token type")
+  else
+    let db ← M.get
+    if db.bal a t < (v : Int) then pure false
+    else do
+      debit a t v
+      pure true
 
 /-! ### rates -/
 
@@ -174,11 +184,12 @@ def ratesToMap (P : Params) (rows : List RateRow) : TMap :=
     let t := stringToTicker P r.token
     if t == 0 then m else m.set t r.value) []
 
-def insertRate (h : Nat) (token : String) (v : Nat) : LM Unit := fun db =>
-  if db.rates.any (fun r => r.height == h && r.token == token) then
-    .fail (.sqlConstraint "pn_rate") db
-  else if v > maxInt64 then .fail (.sqlError "uint64 values with high bit set are not supported") db
-  else .ok () { db with rates := db.rates ++ [{ height := h, token := token, value := v }] }
+abbrev insertRate (h : Nat) (token : String) (v : Nat) : LM Unit :=
+  M.guarded
+    (fun db => if db.rates.any (fun r => r.height == h && r.token == token) then some (.sqlConstraint "pn_rate")
+               else if v > maxInt64 then some (.sqlError "uint64 values with high bit set are not supported")
+               else none)
+    (fun db => { db with rates := db.rates ++ [{ height := h, token := token, value := v }] })
 
 /-- `SelectMostRecentRatesBeforeHeight`: (rates, height) of the greatest rated height `< h`;
     `([], 0)` when there is none. -/
@@ -191,58 +202,60 @@ def DB.mostRecentRatesBefore (db : DB) (h : Nat) : List RateRow × Nat :=
 
 /-! ### history -/
 
-def insertHistBatch (r : HistBatch) : LM Unit := fun db =>
-  if db.histB.any (fun x => x.hash == r.hash && x.height == r.height) then
-    .fail (.sqlConstraint "pn_history_txbatch") db
-  else .ok () { db with histB := db.histB ++ [r] }
+abbrev insertHistBatch (r : HistBatch) : LM Unit :=
+  M.guarded
+    (fun db => if db.histB.any (fun x => x.hash == r.hash && x.height == r.height) then some (.sqlConstraint "pn_history_txbatch") else none)
+    (fun db => { db with histB := db.histB ++ [r] })
 
-def insertHistTx (r : HistTx) : LM Unit := fun db =>
-  if db.histT.any (fun x => x.hash == r.hash && x.txIndex == r.txIndex) then
-    .fail (.sqlConstraint "pn_history_transaction") db
-  else .ok () { db with histT := db.histT ++ [r] }
+abbrev insertHistTx (r : HistTx) : LM Unit :=
+  M.guarded
+    (fun db => if db.histT.any (fun x => x.hash == r.hash && x.txIndex == r.txIndex) then some (.sqlConstraint "pn_history_transaction") else none)
+    (fun db => { db with histT := db.histT ++ [r] })
 
-def insertLookup (r : HistLookup) : LM Unit := fun db =>
-  if db.histL.any (fun x => x.hash == r.hash && x.txIndex == r.txIndex && x.addr == r.addr) then
-    .ok () db
-  else .ok () { db with histL := db.histL ++ [r] }
+abbrev insertLookup (r : HistLookup) : LM Unit :=
+  M.guarded (fun _ => none)
+    (fun db => if db.histL.any (fun x => x.hash == r.hash && x.txIndex == r.txIndex && x.addr == r.addr) then db
+               else { db with histL := db.histL ++ [r] })
 
 /-- `SetTransactionHistoryExecuted`: every batch row with this hash. -/
-def setExecuted (hash : Hash) (v : Int) : LM Unit :=
-  M.modify fun db => { db with histB := db.histB.map (fun r => if r.hash == hash then { r with executed := v } else r) }
+abbrev setExecuted (hash : Hash) (v : Int) : LM Unit :=
+  M.guarded (fun _ => none) fun db => { db with histB := db.histB.map (fun r => if r.hash == hash then { r with executed := v } else r) }
 
-def setConvertedAmount (hash : Hash) (idx : Nat) (amt : Int) : LM Unit :=
-  M.modify fun db => { db with histT := db.histT.map (fun r =>
+abbrev setConvertedAmount (hash : Hash) (idx : Nat) (amt : Int) : LM Unit :=
+  M.guarded (fun _ => none) fun db => { db with histT := db.histT.map (fun r =>
     if r.hash == hash && r.txIndex == (idx : Int) then { r with toAmount := amt } else r) }
 
-def setPegConverted (hash : Hash) (idx : Nat) (amt : Int) (outputs : String) : LM Unit :=
-  M.modify fun db => { db with histT := db.histT.map (fun r =>
+abbrev setPegConverted (hash : Hash) (idx : Nat) (amt : Int) (outputs : String) : LM Unit :=
+  M.guarded (fun _ => none) fun db => { db with histT := db.histT.map (fun r =>
     if r.hash == hash && r.txIndex == (idx : Int) then { r with toAmount := amt, outputs := outputs } else r) }
 
 /-! ### relations (replay protection) -/
 
-def insertRelation (hash : Hash) (a : Addr) (idx : Nat) (to conv : Bool) : LM Unit := fun db =>
-  if db.rels.any (fun r => r.hash == hash && r.addr == a) then .ok () db
-  else .ok () { db with rels := db.rels ++ [{ hash := hash, addr := a, txIndex := idx, to := to || conv, conv := conv }] }
+abbrev insertRelation (hash : Hash) (a : Addr) (idx : Nat) (to conv : Bool) : LM Unit :=
+  M.guarded (fun _ => none)
+    (fun db => if db.rels.any (fun r => r.hash == hash && r.addr == a) then db
+               else { db with rels := db.rels ++ [{ hash := hash, addr := a, txIndex := idx, to := to || conv, conv := conv }] })
 
 def DB.isReplay (db : DB) (hash : Hash) : Bool := db.rels.any (·.hash == hash)
 
 /-! ### holding -/
 
-def insertHolding (r : HoldRow) : LM Unit := fun db =>
-  if db.holding.any (fun x => x.entry.hash == r.entry.hash) then
-    .fail (.sqlConstraint "pn_transaction_batch_holding") db
-  else .ok () { db with holding := db.holding ++ [r] }
+abbrev insertHolding (r : HoldRow) : LM Unit :=
+  M.guarded
+    (fun db => if db.holding.any (fun x => x.entry.hash == r.entry.hash) then some (.sqlConstraint "pn_transaction_batch_holding") else none)
+    (fun db => { db with holding := db.holding ++ [r] })
 
 /-! ### bank -/
 
-def insertBank (h : Int) (amount : Int) : LM Unit := fun db =>
-  if db.bank.any (·.height == h) then .fail (.sqlConstraint "pn_bank") db
-  else .ok () { db with bank := db.bank ++ [{ height := h, amount := amount, used := -1, requested := -1 }] }
+abbrev insertBank (h : Int) (amount : Int) : LM Unit :=
+  M.guarded
+    (fun db => if db.bank.any (·.height == h) then some (.sqlConstraint "pn_bank") else none)
+    (fun db => { db with bank := db.bank ++ [{ height := h, amount := amount, used := -1, requested := -1 }] })
 
-def updateBank (h : Int) (used requested : Int) : LM Unit := fun db =>
-  if db.bank.any (·.height == h) then
-    .ok () { db with bank := db.bank.map (fun r => if r.height == h then { r with used := used, requested := requested } else r) }
-  else .fail (.uncaught "bank entry not updated") db
+abbrev updateBank (h : Int) (used requested : Int) : LM Unit :=
+  M.guarded
+    (fun db => if db.bank.any (·.height == h) then none else some (.uncaught "bank entry not updated"))
+    (fun db => { db with bank := db.bank.map (fun r => if r.height == h then { r with used := used, requested := requested } else r) })
 
 def DB.bankAmount (db : DB) (h : Int) : Int :=
   match db.bank.find? (·.height == h) with
@@ -251,19 +264,21 @@ def DB.bankAmount (db : DB) (h : Int) : Int :=
 
 /-! ### grading tables -/
 
-def insertGrade (r : GradeRow) : LM Unit := fun db =>
-  if db.grades.any (·.height == r.height) then .fail (.sqlConstraint "pn_grade") db
-  else .ok () { db with grades := db.grades ++ [r] }
+abbrev insertGrade (r : GradeRow) : LM Unit :=
+  M.guarded
+    (fun db => if db.grades.any (·.height == r.height) then some (.sqlConstraint "pn_grade") else none)
+    (fun db => { db with grades := db.grades ++ [r] })
 
-def insertWinner (r : WinnerRow) : LM Unit := fun db =>
-  if db.winners.any (fun x => x.height == r.height && x.position == r.position) then
-    .fail (.sqlConstraint "pn_winners") db
-  else .ok () { db with winners := db.winners ++ [r] }
+abbrev insertWinner (r : WinnerRow) : LM Unit :=
+  M.guarded
+    (fun db => if db.winners.any (fun x => x.height == r.height && x.position == r.position) then some (.sqlConstraint "pn_winners") else none)
+    (fun db => { db with winners := db.winners ++ [r] })
 
 /-! ### sync bookkeeping -/
 
-def markSynced (h : Nat) (version : Int) : LM Unit := fun db =>
-  if db.syncVersions.any (·.1 == h) then .fail (.sqlConstraint "pn_sync_version") db
-  else .ok () { db with syncVersions := db.syncVersions ++ [(h, version)], synced := some h }
+abbrev markSynced (h : Nat) (version : Int) : LM Unit :=
+  M.guarded
+    (fun db => if db.syncVersions.any (·.1 == h) then some (.sqlConstraint "pn_sync_version") else none)
+    (fun db => { db with syncVersions := db.syncVersions ++ [(h, version)], synced := some h })
 
 end Pegnet
